@@ -235,6 +235,18 @@ func setChallenge(o proto4.Object, sig types.Signature) {
 	}
 }
 
+func getChallenge(o proto4.Object) (types.Signature, bool) {
+	switch r := o.(type) {
+	case *proto4.RPCAppendSectorsRequest:
+		return r.ChallengeSignature, true
+	case *proto4.RPCFreeSectorsRequest:
+		return r.ChallengeSignature, true
+	case *proto4.RPCReplenishAccountsRequest:
+		return r.ChallengeSignature, true
+	}
+	return types.Signature{}, false
+}
+
 func setContractID(o proto4.Object, id types.FileContractID) {
 	switch r := o.(type) {
 	case *proto4.RPCAppendSectorsRequest:
@@ -291,6 +303,20 @@ func (x *c08) tamperFor(kind, corrupt string, m *mcontract) (t *rhpx.Tamper, ok 
 		return &rhpx.Tamper{Revision: func(r *types.V2FileContract) { r.FileMerkleRoot[0] ^= 1 }}, true
 	case "sig-number":
 		return &rhpx.Tamper{Revision: func(r *types.V2FileContract) { r.RevisionNumber++ }}, true
+	case "chal-zero":
+		return &rhpx.Tamper{Request: func(o proto4.Object) { setChallenge(o, types.Signature{}) }}, true
+	case "sig-zero":
+		return &rhpx.Tamper{Signature: func(s *types.Signature) { *s = types.Signature{} }}, true
+	case "chal-replay":
+		old, have := x.lastReq[key]
+		if !have {
+			return nil, false
+		}
+		sig, ok := getChallenge(old)
+		if !ok {
+			return nil, false
+		}
+		return &rhpx.Tamper{Request: func(o proto4.Object) { setChallenge(o, sig) }}, true
 	case "sig-replay":
 		sig, have := x.lastSig[key]
 		if !have {
@@ -343,8 +369,8 @@ var argCorruptions = map[string]bool{
 
 // corruptionsFor lists what can be corrupted in each RPC.
 func corruptionsFor(op string) []string {
-	chal := []string{"chal-random", "chal-otherkey", "chal-n-1", "chal-n+1"}
-	sig := []string{"sig-random", "sig-otherkey", "sig-amount", "sig-root", "sig-number", "sig-replay"}
+	chal := []string{"chal-random", "chal-otherkey", "chal-n-1", "chal-n+1", "chal-zero"}
+	sig := []string{"sig-random", "sig-otherkey", "sig-amount", "sig-root", "sig-number", "sig-replay", "sig-zero"}
 	prices := []string{"prices-otherkey", "prices-expired", "prices-altered"}
 	cat := func(l ...[]string) (out []string) {
 		for _, x := range l {
@@ -354,15 +380,15 @@ func corruptionsFor(op string) []string {
 	}
 	switch op {
 	case "append":
-		return cat(chal, sig, prices, []string{"req-replay", "other-contract"})
+		return cat(chal, sig, prices, []string{"req-replay", "chal-replay", "other-contract"})
 	case "free":
-		return cat(chal, sig, prices, []string{"req-replay", "other-contract", "idx-oob", "idx-dup"})
+		return cat(chal, sig, prices, []string{"req-replay", "chal-replay", "other-contract", "idx-oob", "idx-dup"})
 	case "roots":
 		return cat(sig, prices, []string{"req-replay", "other-contract", "off-oob", "len-zero", "len-oob"})
 	case "fund":
 		return cat(sig, []string{"req-replay", "other-contract", "dep-zero", "dep-none", "dep-noaccount", "dep-overflow"})
 	case "repl-acct", "repl-pool":
-		return cat(chal, sig, []string{"req-replay", "other-contract", "target-zero", "no-accounts", "target-overflow"})
+		return cat(chal, sig, []string{"req-replay", "chal-replay", "other-contract", "target-zero", "no-accounts", "target-overflow"})
 	case "renew":
 		return cat(chal, prices, []string{"sig-random", "sig-otherkey", "sig-amount", "other-contract", "proof-height-low", "allowance-zero", "collateral-over-max"})
 	case "refresh-full", "refresh-partial":
@@ -850,64 +876,71 @@ func (x *c08) renew(op C08Op) error {
 	return x.after(what, nil, nil)
 }
 
+// race starts 2 or 3 honest RPCs (the chain op.Race, op.Race.Race, ...)
+// concurrently on one contract, all built from the same committed revision:
+// exactly one of them can be valid, so exactly one must commit and report
+// success; which one is up to the scheduler.
 func (x *c08) race(op C08Op) error {
-	if op.Race == nil {
-		return nil
-	}
 	m := x.live(op.C)
-	a, b := op, *op.Race
-	a.Corrupt, b.Corrupt, b.C = "", "", op.C
-	ea, err := x.prepare(a, m)
-	if err != nil {
-		return err
+	var parts []exchange
+	var exps []expectation
+	for p := op.Race; p != nil && len(parts) < 3; p = p.Race {
+		q := *p
+		q.Corrupt, q.C = "", op.C
+		e, err := x.prepare(q, m)
+		if err != nil {
+			return err
+		}
+		exp, derr := e.expect()
+		if derr != nil || e.noop {
+			x.cs.Class("race-skipped")
+			return nil
+		}
+		parts, exps = append(parts, e), append(exps, exp)
 	}
-	eb, err := x.prepare(b, m)
-	if err != nil {
-		return err
-	}
-	expA, errA := ea.expect()
-	expB, errB := eb.expect()
-	if errA != nil || errB != nil || ea.noop || eb.noop {
-		x.cs.Class("race-skipped")
+	if len(parts) < 2 {
 		return nil
 	}
-	what := fmt.Sprintf("race {%s: %s} vs {%s: %s}", ea.kind, ea.what, eb.kind, eb.what)
+	what := "race"
+	for _, e := range parts {
+		what += fmt.Sprintf(" {%s: %s}", e.kind, e.what)
+	}
 	logFrom := x.H.Log.Len()
-	var ra, rb rhpx.Result
+	results := make([]rhpx.Result, len(parts))
 	var wg sync.WaitGroup
-	wg.Add(2)
-	go func() { defer wg.Done(); ra, _, _ = ea.run(nil) }()
-	go func() { defer wg.Done(); rb, _, _ = eb.run(nil) }()
+	for i := range parts {
+		wg.Add(1)
+		go func(i int) {
+			defer wg.Done()
+			results[i], _, _ = parts[i].run(nil)
+		}(i)
+	}
 	wg.Wait()
-	if !x.H.Client.WaitIdle(rhpx.Watchdog) || ra.Infra != nil || rb.Infra != nil {
+	if !x.H.Client.WaitIdle(rhpx.Watchdog) {
 		x.cs.Inconclusive("watchdog")
 		return errInconclusive
 	}
-	x.cs.Class("race")
+	winner, done := -1, 0
+	for i, r := range results {
+		if r.Infra != nil {
+			x.cs.Inconclusive("watchdog")
+			return errInconclusive
+		}
+		if r.Done {
+			winner = i
+			done++
+		}
+	}
+	x.cs.Classf("race-%d-way", len(parts))
 	calls := successfulCommits(x.H.Log.Since(logFrom))
 	if len(calls) != 1 {
-		return fmt.Errorf("%s: %d revisions committed; both requests start from revision %d, so exactly one can be valid (results: %v / %v)", what, len(calls), m.Rev.RevisionNumber, ra, rb)
+		return fmt.Errorf("%s: %d revisions committed; all requests start from revision %d, so exactly one can be valid (results: %v)", what, len(calls), m.Rev.RevisionNumber, results)
 	}
-	got := nosig(calls[0].Revision)
-	switch {
-	case reflect.DeepEqual(got, nosig(expA.rev)) && ra.Done:
-		x.cs.Class("race-first-wins")
-		if rb.Done {
-			return fmt.Errorf("%s: the host reported success for both", what)
-		}
-		return x.finishRace(what, m, logFrom, expA)
-	case reflect.DeepEqual(got, nosig(expB.rev)) && rb.Done:
-		x.cs.Class("race-second-wins")
-		if ra.Done {
-			return fmt.Errorf("%s: the host reported success for both", what)
-		}
-		return x.finishRace(what, m, logFrom, expB)
+	if done != 1 {
+		return fmt.Errorf("%s: the host reported success for %d of the requests although one revision was committed (results: %v)", what, done, results)
 	}
-	return fmt.Errorf("%s: the committed revision matches neither request (results %v / %v): %s", what, ra, rb, revDiff(expA.rev, calls[0].Revision))
-}
-
-func (x *c08) finishRace(what string, m *mcontract, logFrom int, e expectation) error {
-	if err := x.verifyCommit(what, m, logFrom, e); err != nil {
+	x.cs.Classf("race-winner=%d:%s", winner, parts[winner].kind)
+	if err := x.verifyCommit(what, m, logFrom, exps[winner]); err != nil {
 		return err
 	}
 	return x.after(what, nil, m)
@@ -932,12 +965,7 @@ func (x *c08) step(op C08Op) error {
 	case "renew", "refresh-full", "refresh-partial":
 		return x.renew(op)
 	case "race":
-		inner := op
-		inner.Op = "fund"
-		if len(op.Roots) > 0 {
-			inner.Op = "append"
-		}
-		return x.race(inner)
+		return x.race(op)
 	}
 	return x.rpc(op)
 }
@@ -1030,16 +1058,21 @@ func genC08Op(t *rapid.T, nc int, allowRace bool) C08Op {
 			return op
 		}
 		op.Op = "race"
-		if rapid.Bool().Draw(t, "race-append") {
-			op.Roots = []int{rapid.IntRange(0, rhpx.PoolSize-1).Draw(t, "root")}
-		} else {
-			op.Dep = []int{0, rapid.IntRange(0, 3).Draw(t, "amt")}
+		n := 2
+		if rapid.IntRange(0, 2).Draw(t, "three") == 0 {
+			n = 3
 		}
-		second := genC08Op(t, nc, false)
-		for second.Op == "latest" || second.Op == "mine" || second.Op == "renew" || second.Op == "refresh-full" || second.Op == "refresh-partial" {
-			second = C08Op{Op: "fund", Dep: []int{1, rapid.IntRange(0, 3).Draw(t, "amt2")}}
+		var chain *C08Op
+		for i := 0; i < n; i++ {
+			p := genC08Op(t, nc, false)
+			for p.Op == "latest" || p.Op == "mine" || p.Op == "renew" || p.Op == "refresh-full" || p.Op == "refresh-partial" {
+				p = C08Op{Op: "fund", Dep: []int{rapid.IntRange(0, 2).Draw(t, "racct"), rapid.IntRange(0, 3).Draw(t, "ramt")}}
+			}
+			p.Corrupt, p.Race = "", chain
+			q := p
+			chain = &q
 		}
-		op.Race = &second
+		op.Race = chain
 		return op
 	}
 	switch op.Op {
@@ -1064,7 +1097,11 @@ func genC08(t *rapid.T) C08Case {
 		c.Contracts = 2
 	}
 	c.Small = rapid.IntRange(0, 5).Draw(t, "small") == 0
-	n := rapid.IntRange(2, 20).Draw(t, "nops")
+	maxOps := 20
+	if kit.Thorough() {
+		maxOps = 40
+	}
+	n := rapid.IntRange(2, maxOps).Draw(t, "nops")
 	for i := 0; i < n; i++ {
 		c.Ops = append(c.Ops, genC08Op(t, c.Contracts, true))
 	}
@@ -1073,7 +1110,7 @@ func genC08(t *rapid.T) C08Case {
 
 var c08Prop = kit.Prop[C08Case]{
 	ID:   "C08",
-	Rule: "sequences (2..20) of fund, replenish accounts/pools, append, free, sector-roots, latest-revision, renew, refresh (full/partial), mine and two-RPC races on 1-2 contracts against the real rhp4.Server, each RPC honest or with exactly one corruption (challenge: garbage / other key / number -1 / +1; renter signature: garbage / other key / over another amount, root or number / replayed; replayed request; price table signed by another key / expired / altered; request for another contract; out-of-range indices, offsets, lengths; zero, missing or overflowing deposits and targets; renewal parameters out of bounds), the rest of the exchange carried on honestly. Oracle over the recorded Contractor calls: every committed revision equals core's ReviseFor*/Renew*/Refresh* applied by the harness to the previous revision and the arguments it sent, is doubly signed, monotone and value conserving; corrupted or underivable requests change nothing and trigger no mutating call; the latest revision validates under core as a revision of the on-chain element. Non-trivial = >= 2 committed revisions and >= 1 rejected corrupted/replayed request in one sequence; distinct by hash of the case.",
+	Rule: "sequences (2..20, thorough 2..40) of fund, replenish accounts/pools, append, free, sector-roots, latest-revision, renew, refresh (full/partial), mine and 2-3-way races of honest RPCs on 1-2 contracts against the real rhp4.Server, each RPC honest or with exactly one corruption (challenge: garbage / zero / other key / number -1 / +1 / replayed; renter signature: garbage / zero / other key / over another amount, root or number / replayed; replayed request; price table signed by another key / expired / altered; request for another contract; out-of-range indices, offsets, lengths; zero, missing or overflowing deposits and targets; renewal parameters out of bounds), the rest of the exchange carried on honestly. Oracle over the recorded Contractor calls: every committed revision equals core's ReviseFor*/Renew*/Refresh* applied by the harness to the previous revision and the arguments it sent, is doubly signed, monotone and value conserving; corrupted or underivable requests change nothing and trigger no mutating call; the latest revision validates under core as a revision of the on-chain element. Non-trivial = >= 2 committed revisions and >= 1 rejected corrupted/replayed request in one sequence; distinct by hash of the case.",
 	Assumptions: []string{
 		"host = rhp4.Server over the repository's reference EphemeralContractor (which itself re-checks signatures and revision numbers) on the all-v2 test network, in-memory transport",
 		"expired price tables are produced by signing a table with a past ValidUntil with the host key (the harness holds it); no sleeping",
